@@ -928,6 +928,25 @@ func (env *SpecEnv) callExpr(c *ast.CallExpr) (*Val, error) {
 			return nil, fmt.Errorf("arrayof of %s", a.S)
 		}
 		return mathInt(sx("sarr", a.T)), nil
+	case "nonnilcount":
+		// number of non-nil entries of a slice of slices in the current state: an uninterpreted
+		// function of the backing array's contents, constrained by the counting axioms
+		// (store at one index changes the count by the nil-ness difference; 0 <= count <= len;
+		// count == len implies no entry is nil; all entries nil implies count == 0), which are
+		// machine-checked in Lean against a finite-set model (lean/Counting.lean).
+		a, err := arg(0)
+		if err != nil {
+			return nil, err
+		}
+		a = env.rvalue(a)
+		st, ok := a.Typ.Underlying().(*types.Slice)
+		if !ok || a.S != SSlice || U.sortOf(st.Elem()) != SSlice {
+			return nil, fmt.Errorf("nonnilcount wants a slice of slices")
+		}
+		hn, hs := U.elemHeapT(st.Elem())
+		U.useNonNilCount()
+		env.vc().externals["counting axioms of nonnilcount (a store changes the count by the fill difference; 0 <= count <= length; count == length implies no empty slot; an all-empty window counts 0): assumed by the SMT solvers, proved in Lean 4 + Mathlib for the finite-sum model in /verif/lean/Counting.lean (re-checked by ./check C14 on every run); that the SMT axiom text says the same as the Lean statements is by inspection"] = true
+		return mathInt(sx("nncnt", sel(env.heap(hn, hs), sx("sarr", a.T)), sx("soff", a.T), sx("slen", a.T))), nil
 	case "allocmark":
 		// the allocation high-water mark of the current state: references are handed out in
 		// increasing order, so `x > m` for a mark m taken earlier says x was allocated after that point
